@@ -91,6 +91,14 @@ def applyFolded (op : Op) (a b : Int) : Out :=
   | some c => .val c
   | none => apply op a b
 
+/-- `x op1 c1 op2 c2` evaluated left to right as the compiler emits it (two instructions, the second
+    consuming the first one's result): an error of the first operation is the program's error and
+    the second operation is never executed. -/
+def chain (op1 op2 : Op) (x c1 c2 : Int) : Out :=
+  match apply op1 x c1 with
+  | .val y => apply op2 y c2
+  | e => e
+
 def Out.render : Out → String
   | .val n => s!"ok {n}"
   | .overflow => "err overflow"
